@@ -3381,6 +3381,12 @@ func (t *transport) RoundTrip(hc *HostClient, req *Request, resp *Response) (ret
 	}
 
 	closeConn := resetConnection || req.ConnectionClose() || resp.ConnectionClose()
+	if customSkipBody && !req.Header.IsHead() {
+		// The caller asked not to read the body of a response that may have
+		// one: it is still on the connection, where the next request would
+		// take it for its response.
+		closeConn = true
+	}
 	if customStreamBody && resp.bodyStream != nil {
 		rbs := resp.bodyStream
 		var closed atomic.Bool
